@@ -2974,3 +2974,1258 @@ Proof.
   - intros x y [].
   - intros x y z [].
 Qed.
+
+(* ------------------------------------------------------------------ the transport contract:
+   how the protocol's waiting sets follow the calls it makes *)
+
+Ltac same_crush :=
+  repeat match goal with
+         | |- context [match ?x with _ => _ end] => destruct x
+         end; cbn; reflexivity.
+
+(* peers change only when a connection is reported / closed *)
+Lemma send_peers s p dial len tag fb ok dok sid : peers (fst (h_send s p dial len tag fb ok dok sid)) = peers s.
+Proof. unfold h_send. same_crush. Qed.
+Lemma settle_peers s p rid res : peers (fst (settle s p rid res)) = peers s.
+Proof. unfold settle. same_crush. Qed.
+Lemma complete_peers s f res : peers (fst (complete s f res)) = peers s.
+Proof. unfold complete. apply (settle_peers (set_futs s (drop_fut f (futs s)))). Qed.
+Lemma complete_all_peers l : forall s res, peers (fst (complete_all s l res)) = peers s.
+Proof.
+  induction l as [|f l IH]; intros s res; cbn [complete_all fst]; [reflexivity|].
+  pose proof (complete_peers s f res) as A. destruct (complete s f res) as [s1 o1]. cbn [fst] in A.
+  pose proof (IH s1 res) as B. destruct (complete_all s1 l res) as [s2 o2]. cbn [fst] in *. congruence.
+Qed.
+Lemma dialfail_peers s p : peers (fst (h_dialfail s p)) = peers s.
+Proof. reflexivity. Qed.
+Lemma openfail_peers s sid u : peers (fst (h_openfail s sid u)) = peers s.
+Proof. unfold h_openfail. same_crush. Qed.
+Lemma opened_body_peers cf0 s po c gate now neg : peers (fst (opened_body cf0 s po c gate now neg)) = peers s.
+Proof.
+  unfold opened_body. cbn [q_rid q_len q_tag q_fb].
+  assert (H : forall res, peers (fst (settle (set_pouts s (drop_po po (pouts s))) (po_peer po) (q_rid (po_req po)) res)) = peers s)
+    by (intros res; apply (settle_peers (set_pouts s (drop_po po (pouts s))))).
+  destruct (max_size cf0 <? _); [apply H|]. destruct gate as [|[x|x|]]; try apply H; reflexivity.
+Qed.
+Lemma opened_peers cf0 s sid c gate now neg : peers (fst (h_opened cf0 s sid c gate now neg)) = peers s.
+Proof.
+  unfold h_opened. destruct (find_po sid (pouts s)) as [po|]; [|reflexivity].
+  pose proof (opened_body_peers cf0 s po c gate now neg) as H. destruct (opened_body _ _ _ _ _ _ _) as [s1 o]. exact H.
+Qed.
+Lemma unblock_peers cf0 s c now : peers (fst (fut_unblock cf0 s c now)) = peers s.
+Proof.
+  unfold fut_unblock. destruct (find_fut c (futs s)) as [f|]; [|reflexivity].
+  destruct (f_wait f); [reflexivity|]. destruct (f_cancel f); [|reflexivity].
+  pose proof (complete_peers s f (RErr E_CANCELED)) as H. destruct (complete s f _) as [s1 o]. exact H.
+Qed.
+Lemma breakw_peers s c : peers (fst (fut_breakw s c)) = peers s.
+Proof.
+  unfold fut_breakw. destruct (find_fut c (futs s)) as [f|]; [|reflexivity].
+  destruct (f_wait f); [reflexivity|apply complete_peers].
+Qed.
+Lemma read_peers s c res : peers (fst (fut_read s c res)) = peers s.
+Proof.
+  unfold fut_read. destruct (find_fut c (futs s)) as [f|]; [|reflexivity].
+  destruct (f_wait f); [|reflexivity].
+  pose proof (complete_peers s f res) as H. destruct (complete s f res) as [s1 o]. exact H.
+Qed.
+Lemma cancel_peers s rid : peers (fst (h_cancel s rid)) = peers s.
+Proof.
+  unfold h_cancel. destruct (find _ (futs s)) as [f|]; [|reflexivity].
+  destruct (f_wait f); [apply complete_peers|reflexivity].
+Qed.
+Lemma advance_peers s now : peers (fst (fut_advance s now)) = peers s.
+Proof. apply complete_all_peers. Qed.
+
+(* active: what can enter *)
+Lemma settle_active s p rid res x : In x (active (fst (settle s p rid res))) -> In x (active s).
+Proof. unfold settle. destruct (_ && _); cbn [fst]; simp_sets; [intros H; apply in_removeP in H; tauto|auto]. Qed.
+Lemma complete_active s f res x : In x (active (fst (complete s f res))) -> In x (active s).
+Proof. unfold complete. apply (settle_active (set_futs s (drop_fut f (futs s)))). Qed.
+Lemma complete_all_active l : forall s res x, In x (active (fst (complete_all s l res))) -> In x (active s).
+Proof.
+  induction l as [|f l IH]; intros s res x; cbn [complete_all fst]; [auto|].
+  pose proof (complete_active s f res x) as A. destruct (complete s f res) as [s1 o1]. cbn [fst] in A.
+  pose proof (IH s1 res x) as B. destruct (complete_all s1 l res) as [s2 o2]. cbn [fst] in *. auto.
+Qed.
+
+(* every future of s' continues a future of s unchanged in carrier, request, peer and deadline *)
+Definition FutsKeep (s s' : pst) : Prop :=
+  forall g, In g (futs s') ->
+    exists f, In f (futs s) /\ f_chan f = f_chan g /\ rid_f f = rid_f g /\ f_peer f = f_peer g /\ f_dl f = f_dl g.
+
+Lemma FutsKeep_same s s' : futs s' = futs s -> FutsKeep s s'.
+Proof. intros E g Hg. rewrite E in Hg. exists g. auto. Qed.
+Lemma FutsKeep_sub s s' : (forall g, In g (futs s') -> In g (futs s)) -> FutsKeep s s'.
+Proof. intros H g Hg. exists g. auto. Qed.
+Lemma FutsKeep_trans s s1 s2 : FutsKeep s s1 -> FutsKeep s1 s2 -> FutsKeep s s2.
+Proof.
+  intros A B g Hg. destruct (B g Hg) as [f1 [H1 [E1 [E2 [E3 E4]]]]]. destruct (A f1 H1) as [f [H [F1 [F2 [F3 F4]]]]].
+  exists f. repeat split; congruence.
+Qed.
+
+Lemma cancel_FutsKeep s rid : FutsKeep s (fst (h_cancel s rid)).
+Proof.
+  unfold h_cancel. destruct (find _ (futs s)) as [f|]; [|apply FutsKeep_same; reflexivity].
+  destruct (f_wait f); [apply FutsKeep_sub, complete_futs_sub|].
+  cbn [fst]. intros g Hg. simp_sets. unfold mark_cancel in Hg. apply in_map_iff in Hg. destruct Hg as [f0 [<- H0]].
+  exists f0. destruct (q_rid (f_req f0) =? rid); auto.
+Qed.
+Lemma breakw_FutsKeep s c : FutsKeep s (fst (fut_breakw s c)).
+Proof.
+  unfold fut_breakw. destruct (find_fut c (futs s)) as [f|]; [|apply FutsKeep_same; reflexivity].
+  destruct (f_wait f); [apply FutsKeep_same; reflexivity|apply FutsKeep_sub, complete_futs_sub].
+Qed.
+Lemma read_FutsKeep s c res : FutsKeep s (fst (fut_read s c res)).
+Proof.
+  unfold fut_read. destruct (find_fut c (futs s)) as [f|]; [|apply FutsKeep_same; reflexivity].
+  destruct (f_wait f); [|apply FutsKeep_same; reflexivity].
+  pose proof (complete_futs_sub s f res) as H. destruct (complete s f res) as [s1 o]. apply FutsKeep_sub. exact H.
+Qed.
+Lemma same_ledger_FutsKeep s s' : same_ledger s s' -> FutsKeep s s'.
+Proof. intros (_ & _ & _ & F & _). apply FutsKeep_same. exact F. Qed.
+
+(* what a step leaves alone: the waiting sets, the peers, the futures; active only shrinks *)
+Definition Inert (s s' : pst) : Prop :=
+  dials s' = dials s /\ pouts s' = pouts s /\ peers s' = peers s /\ FutsKeep s s' /\
+  (forall x, In x (active s') -> In x (active s)).
+
+Lemma Inert_refl s : Inert s s.
+Proof. repeat split; auto. apply FutsKeep_same. reflexivity. Qed.
+Lemma Inert_trans s s1 s2 : Inert s s1 -> Inert s1 s2 -> Inert s s2.
+Proof.
+  intros (A1 & A2 & A3 & A4 & A5) (B1 & B2 & B3 & B4 & B5).
+  repeat split; try congruence; [eapply FutsKeep_trans; eauto|auto].
+Qed.
+Lemma same_ledger_Inert s s' : same_ledger s s' -> Inert s s'.
+Proof.
+  intros H. pose proof (same_ledger_FutsKeep _ _ H) as K. destruct H as (D & A & P & F & N & Pe).
+  repeat split; auto. intros x Hx. rewrite A in Hx. exact Hx.
+Qed.
+
+Lemma cancel_Inert s rid : Inert s (fst (h_cancel s rid)).
+Proof.
+  pose proof (cancel_Keep3 s rid) as (D & P & _). repeat split; auto; [apply cancel_peers|apply cancel_FutsKeep|].
+  unfold h_cancel. destruct (find _ (futs s)) as [f|]; [|auto].
+  destruct (f_wait f); [apply complete_active|auto].
+Qed.
+Lemma breakw_Inert s c : Inert s (fst (fut_breakw s c)).
+Proof.
+  pose proof (breakw_Keep3 s c) as (D & P & _). repeat split; auto; [apply breakw_peers|apply breakw_FutsKeep|].
+  unfold fut_breakw. destruct (find_fut c (futs s)) as [f|]; [|auto].
+  destruct (f_wait f); [auto|apply complete_active].
+Qed.
+Lemma read_Inert s c res : Inert s (fst (fut_read s c res)).
+Proof.
+  pose proof (read_Keep3 s c res) as (D & P & _). repeat split; auto; [apply read_peers|apply read_FutsKeep|].
+  unfold fut_read. destruct (find_fut c (futs s)) as [f|]; [|auto].
+  destruct (f_wait f); [|auto].
+  pose proof (complete_active s f res) as H. destruct (complete s f res) as [s1 o]. exact H.
+Qed.
+
+(* outputs that make no call *)
+Definition nocall (o : list out) : Prop := o_dials o = [] /\ o_opens o = [] /\ o_binds o = [].
+Lemma nocall_nil : nocall [].
+Proof. repeat split. Qed.
+Lemma nocall_app a b : nocall a -> nocall b -> nocall (a ++ b).
+Proof.
+  unfold nocall, o_dials, o_opens, o_binds. rewrite !flat_map_app.
+  intros (A & B & C) (D & E & F). rewrite A, B, C, D, E, F. repeat split.
+Qed.
+Lemma nocall_of_nobind_noopen o :
+  (forall x, In x o -> match x with ODial _ | OOpen _ _ | OBind _ _ => False | _ => True end) -> nocall o.
+Proof.
+  intros H. unfold nocall, o_dials, o_opens, o_binds.
+  induction o as [|x o IH]; [repeat split|].
+  assert (Hx := H x (or_introl eq_refl)). destruct IH as (A & B & C); [intros y Hy; apply H; right; exact Hy|].
+  cbn [flat_map]. rewrite A, B, C. destruct x; try contradiction; repeat split.
+Qed.
+
+(* handlers other than send / established / opened make no call *)
+Definition nc (x : out) : bool := match x with ODial _ | OOpen _ _ | OBind _ _ => false | _ => true end.
+Definition ncl (o : list out) : Prop := forallb nc o = true.
+Lemma ncl_app a b : ncl a -> ncl b -> ncl (a ++ b).
+Proof. unfold ncl. rewrite forallb_app. intros -> ->. reflexivity. Qed.
+Lemma ncl_nocall o : ncl o -> nocall o.
+Proof.
+  intros H. apply nocall_of_nobind_noopen. unfold ncl in H. rewrite forallb_forall in H.
+  intros x Hx. specialize (H x Hx). destruct x; try discriminate; exact I.
+Qed.
+Lemma ncl_map_fail {A} (g : A -> N) code l : ncl (map (fun a => OFail (g a) code) l).
+Proof. unfold ncl. induction l; cbn; auto. Qed.
+
+Lemma verdict_ncl rid res : ncl (verdict rid res).
+Proof. unfold verdict. destruct res as [l t|c]; [reflexivity|]. destruct (c =? E_CANCELED); reflexivity. Qed.
+Lemma settle_ncl s p rid res : ncl (snd (settle s p rid res)).
+Proof. unfold settle. destruct (_ && _); cbn [snd]; [apply verdict_ncl|reflexivity]. Qed.
+Lemma complete_ncl s f res : ncl (snd (complete s f res)).
+Proof. unfold complete. apply settle_ncl. Qed.
+Lemma complete_all_ncl l : forall s res, ncl (snd (complete_all s l res)).
+Proof.
+  induction l as [|f l IH]; intros s res; cbn [complete_all snd]; [reflexivity|].
+  pose proof (complete_ncl s f res) as H. destruct (complete s f res) as [s1 o1].
+  pose proof (IH s1 res) as H2. destruct (complete_all s1 l res) as [s2 o2]. cbn [snd] in *.
+  apply ncl_app; assumption.
+Qed.
+Lemma closed_ncl s p : ncl (snd (h_closed s p)).
+Proof. unfold h_closed. destruct (memN p _); cbn [snd]; [apply (ncl_map_fail snd)|reflexivity]. Qed.
+Lemma dialfail_ncl s p : ncl (snd (h_dialfail s p)).
+Proof. unfold h_dialfail. cbn [snd]. apply (ncl_map_fail (fun d : N * req => q_rid (snd d))). Qed.
+Lemma openfail_ncl s sid u : ncl (snd (h_openfail s sid u)).
+Proof. unfold h_openfail. destruct (find_po sid (pouts s)); reflexivity. Qed.
+Lemma opened_body_ncl cf0 s po c gate now neg : ncl (snd (opened_body cf0 s po c gate now neg)).
+Proof.
+  unfold opened_body. cbn [q_rid q_len q_tag q_fb]. destruct (max_size cf0 <? _); [apply settle_ncl|].
+  destruct gate as [|[g|g|]]; try apply settle_ncl; reflexivity.
+Qed.
+Lemma unblock_ncl cf0 s c now : ncl (snd (fut_unblock cf0 s c now)).
+Proof.
+  unfold fut_unblock. destruct (find_fut c (futs s)) as [f|]; [|reflexivity].
+  destruct (f_wait f); [reflexivity|]. destruct (f_cancel f); [|reflexivity].
+  pose proof (complete_ncl s f (RErr E_CANCELED)) as H. destruct (complete s f _) as [s1 o]. cbn [snd] in *.
+  unfold ncl in *. cbn [forallb nc]. exact H.
+Qed.
+Lemma breakw_ncl s c : ncl (snd (fut_breakw s c)).
+Proof.
+  unfold fut_breakw. destruct (find_fut c (futs s)) as [f|]; [|reflexivity].
+  destruct (f_wait f); [reflexivity|apply complete_ncl].
+Qed.
+Lemma fb_resp_ncl f o : ncl (fb_resp f o).
+Proof.
+  unfold fb_resp, ncl. destruct (f_neg f =? 0); [reflexivity|].
+  induction o as [|x o IH]; [reflexivity|]. cbn [flat_map]. rewrite forallb_app, IH, andb_true_r. destruct x; reflexivity.
+Qed.
+Lemma read_ncl s c res : ncl (snd (fut_read s c res)).
+Proof.
+  unfold fut_read. destruct (find_fut c (futs s)) as [f|]; [|reflexivity].
+  destruct (f_wait f); [|reflexivity].
+  pose proof (complete_ncl s f res) as H. destruct (complete s f res) as [s1 o]. cbn [snd] in *.
+  apply ncl_app; [exact H|apply fb_resp_ncl].
+Qed.
+Lemma advance_ncl s now : ncl (snd (fut_advance s now)).
+Proof. unfold fut_advance. apply complete_all_ncl. Qed.
+Lemma cancel_ncl s rid : ncl (snd (h_cancel s rid)).
+Proof.
+  unfold h_cancel. destruct (find _ (futs s)) as [f|]; [|reflexivity].
+  destruct (f_wait f); [apply complete_ncl|reflexivity].
+Qed.
+Lemma uresp_ncl cf0 s irid len tag fb gate now : ncl (snd (h_uresp cf0 s irid len tag fb gate now)).
+Proof.
+  unfold h_uresp, feed. destruct (find_rs irid (rsps s)) as [rs|]; [|reflexivity].
+  destruct (s_w rs); [reflexivity|]. destruct fb; (destruct (max_size cf0 <? len); [reflexivity|]);
+  destruct gate as [|[g|g|]]; reflexivity.
+Qed.
+Lemma rsp_gate_ncl s c ok : ncl (snd (rsp_gate s c ok)).
+Proof.
+  unfold rsp_gate. destruct (find _ (rsps s)) as [rs|]; [|reflexivity].
+  destruct (s_w rs) as [[[l t] d]|]; [|reflexivity]. unfold feed. destruct ok; destruct (s_fb rs); reflexivity.
+Qed.
+Lemma adv_out_ncl s now : ncl (rsp_advance_out s now).
+Proof.
+  unfold rsp_advance_out, ncl. induction (rsps s) as [|a l IH]; [reflexivity|].
+  cbn [flat_map]. rewrite forallb_app, IH, andb_true_r. destruct (s_w a) as [[[x y] d]|]; [|reflexivity].
+  destruct (d <=? now); [|reflexivity]. unfold feed. destruct (s_fb a); reflexivity.
+Qed.
+Lemma inread_ncl s c good len tag : ncl (snd (h_inread s c good len tag)).
+Proof.
+  unfold h_inread. destruct (find_rd c (rdrs s)) as [rd|]; [|reflexivity].
+  destruct (_ && _); [destruct good; [destruct (r_neg rd =? 0)|]|]; reflexivity.
+Qed.
+
+(* ------------------------------------------------------------------ the ghost ledger covers the waiting sets *)
+
+Record GI (cf : cfg) (s : pst) (en : env) (g : ghost) : Prop := mkGI {
+  gi_now : g_now g = now en;
+  gi_conn : forall p, In p (g_conn g) <-> conn_of p en <> None;
+  gi_pc : forall p, In p (peers s) -> conn_of p en <> None;
+  gi_dial : forall d, In d (dials s) -> In (fst d) (g_dials g);
+  gi_po : forall po, In po (pouts s) -> In (po_sid po, po_peer po) (g_opens g);
+  gi_sid_lt : forall po, In po (pouts s) -> po_sid po < next_sid en;
+  gi_sid_nd : NoDup (map po_sid (pouts s));
+  gi_fut : forall f, In f (futs s) -> In (f_peer f, rid_f f) (active s) ->
+           exists dl, In (f_chan f, rid_f f, dl) (g_live g) /\ f_dl f <= dl;
+  gi_dl : forall f, In f (futs s) -> now en < f_dl f;
+  gi_live_le : forall x, In x (g_live g) -> snd x <= g_now g + tmo cf
+}.
+
+Lemma GI_init cf : GI cf init_pst init_env g0.
+Proof.
+  constructor; cbn; try (intros; contradiction); try constructor.
+  - intros []. - intros H. exfalso. apply H. reflexivity.
+Qed.
+
+Lemma filter_all {A} (f : A -> bool) l : (forall x, In x l -> f x = true) -> filter f l = l.
+Proof.
+  induction l as [|a l IH]; intros H; [reflexivity|]. cbn [filter].
+  rewrite (H a (or_introl eq_refl)), IH; [reflexivity|]. intros x Hx. apply H. right. exact Hx.
+Qed.
+
+Lemma o_terms_terms r o : In r (o_terms o) -> (1 <= terms r o)%nat.
+Proof.
+  unfold o_terms, terms. induction o as [|x o IH]; [intros []|]. cbn [flat_map filter]. intros H.
+  apply in_app_or in H. destruct H as [H|H].
+  - destruct x; cbn in H; try tauto; destruct H as [<-|[]]; cbn [is_term]; rewrite N.eqb_refl; cbn [length]; lia.
+  - specialize (IH H). destruct (is_term r x); cbn [length]; lia.
+Qed.
+
+(* an id that is active at a peer has not been answered in this step *)
+Lemma active_not_term s tr o p r :
+  Inv s (tr ++ o) -> In (p, r) (active s) -> ~ In r (o_terms o).
+Proof.
+  intros I Ha Ht. apply o_terms_terms in Ht. pose proof (inv_once _ _ I r) as H. rewrite terms_app in H.
+  assert (1 <= ca r s)%nat. { apply cnt_pos_in. change r with (snd (p, r)). apply in_map. exact Ha. }
+  lia.
+Qed.
+
+(* which stimuli the ghost treats specially *)
+Definition plain_ev (e : ev) (tg : option N) : bool :=
+  match e, tg with
+  | EAdvance _, _ | EEstablished _ _ _, _ | EClosed _, _ | EDialFail _, _ => false
+  | EOpened _ _ _, Some _ | EOpenFail _ _, Some _ | EUnblock _, Some _ => false
+  | _, _ => true
+  end.
+
+Lemma gstep_plain cf e o tg g :
+  plain_ev e tg = true ->
+  gstep cf e o tg g =
+  mkG (g_now g) (g_conn g) (g_dials g ++ o_dials o) (g_opens g ++ o_opens o)
+      (filter (fun x => negb (memN (snd (fst x)) (o_terms o)))
+              (g_live g ++ map (fun b => (fst b, snd b, g_now g + tmo cf)) (o_binds o))).
+Proof.
+  intros H. unfold gstep.
+  destruct e; try discriminate H; try (destruct tg; try discriminate H);
+    cbn [memN existsb negb]; rewrite ?(filter_all (fun _ => true)) by reflexivity; reflexivity.
+Qed.
+
+Lemma live_keep cf g o (x : N * N * N) :
+  In x (g_live g) -> ~ In (snd (fst x)) (o_terms o) ->
+  In x (filter (fun y => negb (memN (snd (fst y)) (o_terms o)))
+               (g_live g ++ map (fun b => (fst b, snd b, g_now g + tmo cf)) (o_binds o))).
+Proof.
+  intros H Hn. apply filter_In. split; [apply in_or_app; left; exact H|].
+  destruct (memN (snd (fst x)) (o_terms o)) eqn:E; [|reflexivity]. apply memN_in in E. contradiction.
+Qed.
+
+Lemma GI_inert cf s en g s' en' e o tg tr :
+  GI cf s en g -> Inv s' (tr ++ o) -> Inert s s' -> nocall o -> plain_ev e tg = true ->
+  now en' = now en -> (forall p, conn_of p en' = None <-> conn_of p en = None) -> next_sid en <= next_sid en' ->
+  GI cf s' en' (gstep cf e o tg g).
+Proof.
+  intros [G1 G2 G3 G4 G5 G6 G7 G8 G9 G10] I (D & P & Pe & FK & A) (N1 & N2 & N3) PE Hnow Hconn Hsid.
+  rewrite (gstep_plain _ _ _ _ _ PE). rewrite N1, N2, N3. cbn [map]. rewrite !app_nil_r.
+  constructor; cbn [g_now g_conn g_dials g_opens g_live].
+  - congruence.
+  - intros p. rewrite G2. rewrite (Hconn p). tauto.
+  - intros p Hp. rewrite Pe in Hp. intros E. apply (G3 p Hp). apply Hconn. exact E.
+  - rewrite D. exact G4.
+  - rewrite P. exact G5.
+  - rewrite P. intros po H. specialize (G6 po H). lia.
+  - rewrite P. exact G7.
+  - intros f' Hf Ha. destruct (FK f' Hf) as [f [Hf0 [E1 [E2 [E3 E4]]]]].
+    assert (Ha0 : In (f_peer f, rid_f f) (active s)) by (rewrite E2, E3; apply A; exact Ha).
+    destruct (G8 f Hf0 Ha0) as [dl [Hl Hd]]. exists dl. rewrite <- E1, <- E2, <- E4. split; [|exact Hd].
+    apply filter_In. split; [exact Hl|]. cbn [fst snd].
+    destruct (memN (rid_f f) (o_terms o)) eqn:M; [|reflexivity]. apply memN_in in M.
+    exfalso. rewrite E2 in M. exact (active_not_term _ _ _ _ _ I Ha M).
+  - intros f' Hf. destruct (FK f' Hf) as [f [Hf0 [_ [_ [_ E4]]]]]. rewrite Hnow, <- E4. exact (G9 f Hf0).
+  - intros x Hx. apply filter_In in Hx. exact (G10 x (proj1 Hx)).
+Qed.
+
+Lemma live_in_filter g o (x : N * N * N) extra :
+  In x (g_live g) -> ~ In (snd (fst x)) (o_terms o) ->
+  In x (filter (fun y => negb (memN (snd (fst y)) (o_terms o))) (g_live g ++ extra)).
+Proof.
+  intros H Hn. apply filter_In. split; [apply in_or_app; left; exact H|].
+  destruct (memN (snd (fst x)) (o_terms o)) eqn:E; [|reflexivity]. apply memN_in in E. contradiction.
+Qed.
+
+Lemma fut_rid_known s tr f : Inv s tr -> In f (futs s) -> rid_f f < next_rid s /\ cd (rid_f f) s = 0%nat.
+Proof.
+  intros I Hf. assert (1 <= cf (rid_f f) s)%nat by (apply cnt_pos_in; apply in_map; exact Hf). split.
+  - destruct (N.lt_ge_cases (rid_f f) (next_rid s)) as [L|L]; [exact L|].
+    pose proof (inv_fresh _ _ I (rid_f f) L). lia.
+  - pose proof (inv_ctx _ _ I (rid_f f)). lia.
+Qed.
+
+Lemma keep_live (x : N * N * N) L T E :
+  In x L -> negb (memN (snd (fst x)) T) = true ->
+  In x (filter (fun y => negb (memN (snd (fst y)) T)) (L ++ E)).
+Proof. intros H Hn. apply filter_In. split; [apply in_or_app; left; exact H|exact Hn]. Qed.
+
+(* send_request *)
+Lemma GI_send cf s en g tr p dial len tag fb :
+  GI cf s en g -> Inv s tr ->
+  let r := step cf (s, en) (ESend p dial len tag fb) in
+  GI cf (fst (fst (fst r))) (snd (fst (fst r))) (gstep cf (ESend p dial len tag fb) (snd (fst r)) (snd r) g).
+Proof.
+  intros [G1 G2 G3 G4 G5 G6 G7 G8 G9 G10] I r. subst r. cbn [step] in *.
+  rewrite gstep_plain by reflexivity.
+  unfold h_send in *. simp_sets.
+  assert (Hfut : forall f' act', In f' (futs s) -> In (f_peer f', rid_f f') act' ->
+            (forall x, In x act' -> In x (active s) \/ snd x = next_rid s) ->
+            rid_f f' <> next_rid s /\ exists dl, In (f_chan f', rid_f f', dl) (g_live g) /\ f_dl f' <= dl).
+  { intros f' act' Hf Ha Hact. destruct (fut_rid_known _ _ _ I Hf) as [L _]. split; [lia|].
+    destruct (Hact _ Ha) as [Ha0|E]; [exact (G8 f' Hf Ha0)|]. exfalso. cbn [snd] in E. lia. }
+  assert (Hlive : forall o0 x, In x (filter (fun y => negb (memN (snd (fst y)) (o_terms o0))) (g_live g ++ [])) ->
+                               snd x <= g_now g + tmo cf).
+  { intros o0 x Hx. apply filter_In in Hx. destruct Hx as [Hx _]. rewrite app_nil_r in Hx. exact (G10 x Hx). }
+  destruct (memN p (peers s)) eqn:Mp.
+  - destruct (conn_of p en) as [okc|] eqn:Cp; [|exfalso; apply memN_in in Mp; exact (G3 p Mp Cp)].
+    destruct (open_ok p en) eqn:Ok; cbn [fst snd andb] in *.
+    + (* a substream is being opened *)
+      constructor; cbn [g_now g_conn g_dials g_opens g_live now next_sid conns]; simp_sets; cbn [o_dials o_opens o_binds flat_map app map].
+      * exact G1.
+      * intros q. rewrite G2. unfold conn_of. cbn [conns]. tauto.
+      * intros q Hq. specialize (G3 q Hq). unfold conn_of in *. cbn [conns]. exact G3.
+      * rewrite app_nil_r. exact G4.
+      * intros po H. apply in_app_or in H. apply in_or_app. destruct H as [H|[<-|[]]]; [left; exact (G5 po H)|right; left; reflexivity].
+      * intros po H. apply in_app_or in H. destruct H as [H|[<-|[]]]; [specialize (G6 po H); lia|cbn [po_sid]; lia].
+      * rewrite map_app. cbn [map po_sid]. apply NoDup_snoc; [exact G7|].
+        intros H. apply in_map_iff in H. destruct H as [po [E Hpo]]. specialize (G6 po Hpo). lia.
+      * intros f' Hf Ha. destruct (Hfut f' _ Hf Ha) as [_ [dl [Hl Hd]]].
+        { intros x Hx. apply in_app_or in Hx. destruct Hx as [Hx|[<-|[]]]; [left; exact Hx|right; reflexivity]. }
+        exists dl. split; [apply keep_live; [exact Hl|reflexivity]|exact Hd].
+      * exact G9.
+      * apply Hlive.
+    + (* open_substream failed: RequestFailed at once *)
+      constructor; cbn [g_now g_conn g_dials g_opens g_live now next_sid conns]; simp_sets; cbn [o_dials o_opens o_binds flat_map app map]; rewrite ?app_nil_r.
+      * exact G1.
+      * intros q. rewrite G2. unfold conn_of. cbn [conns]. tauto.
+      * intros q Hq. specialize (G3 q Hq). unfold conn_of in *. cbn [conns]. exact G3.
+      * exact G4. * exact G5.
+      * intros po H. specialize (G6 po H). lia.
+      * exact G7.
+      * intros f' Hf Ha. destruct (Hfut f' _ Hf Ha) as [Hne [dl [Hl Hd]]]; [intros x Hx; left; exact Hx|].
+        exists dl. split; [|exact Hd]. rewrite <- (app_nil_r (g_live g)). apply keep_live; [exact Hl|].
+        cbn. rewrite (proj2 (N.eqb_neq _ _) Hne). reflexivity.
+      * exact G9.
+      * intros x Hx. apply filter_In in Hx. destruct Hx as [Hx _]. exact (G10 x Hx).
+  - destruct dial; cbn [negb]; [destruct (_ && _ && _)|]; cbn [fst snd] in *;
+      (constructor; cbn [g_now g_conn g_dials g_opens g_live]; simp_sets; cbn [o_dials o_opens o_binds flat_map app map]; rewrite ?app_nil_r;
+       [exact G1|exact G2|exact G3| |exact G5|exact G6|exact G7| |exact G9|
+        intros x Hx; apply filter_In in Hx; destruct Hx as [Hx _]; exact (G10 x Hx)]).
+    + intros d H. apply in_app_or in H. apply in_or_app. destruct H as [H|[<-|[]]]; [left; exact (G4 d H)|right; left; reflexivity].
+    + intros f' Hf Ha. destruct (Hfut f' _ Hf Ha) as [_ [dl [Hl Hd]]]; [intros x Hx; left; exact Hx|].
+      exists dl. split; [|exact Hd]. rewrite <- (app_nil_r (g_live g)). apply keep_live; [exact Hl|reflexivity].
+    + exact G4.
+    + intros f' Hf Ha. destruct (Hfut f' _ Hf Ha) as [Hne [dl [Hl Hd]]]; [intros x Hx; left; exact Hx|].
+      exists dl. split; [|exact Hd]. rewrite <- (app_nil_r (g_live g)). apply keep_live; [exact Hl|].
+      cbn. rewrite (proj2 (N.eqb_neq _ _) Hne). reflexivity.
+    + exact G4.
+    + intros f' Hf Ha. destruct (Hfut f' _ Hf Ha) as [Hne [dl [Hl Hd]]]; [intros x Hx; left; exact Hx|].
+      exists dl. split; [|exact Hd]. rewrite <- (app_nil_r (g_live g)). apply keep_live; [exact Hl|].
+      cbn. rewrite (proj2 (N.eqb_neq _ _) Hne). reflexivity.
+Qed.
+
+(* futures that continue keep their ledger entry as long as their request is still active *)
+Lemma fut_clause_keep s s' g o tr E :
+  Inv s' (tr ++ o) -> FutsKeep s s' ->
+  (forall x, In x (active s') -> In x (active s) \/ forall f, In f (futs s) -> rid_f f <> snd x) ->
+  (forall f, In f (futs s) -> In (f_peer f, rid_f f) (active s) ->
+             exists dl, In (f_chan f, rid_f f, dl) (g_live g) /\ f_dl f <= dl) ->
+  forall f', In f' (futs s') -> In (f_peer f', rid_f f') (active s') ->
+             exists dl, In (f_chan f', rid_f f', dl)
+                           (filter (fun y => negb (memN (snd (fst y)) (o_terms o))) (g_live g ++ E)) /\ f_dl f' <= dl.
+Proof.
+  intros I FK A G8 f' Hf Ha. destruct (FK f' Hf) as [f [Hf0 [E1 [E2 [E3 E4]]]]].
+  destruct (A _ Ha) as [Ha0|Hn]; [|exfalso; exact (Hn f Hf0 E2)].
+  rewrite <- E2, <- E3 in Ha0. destruct (G8 f Hf0 Ha0) as [dl [Hl Hd]].
+  exists dl. rewrite <- E1, <- E2, <- E4. split; [|exact Hd]. apply keep_live; [exact Hl|]. cbn [fst snd].
+  destruct (memN (rid_f f) (o_terms o)) eqn:M; [|reflexivity]. apply memN_in in M.
+  exfalso. rewrite E2 in M. exact (active_not_term _ _ _ _ _ I Ha M).
+Qed.
+
+Lemma conn_of_none p en : conn_of p en = None <-> forall x, In x (conns en) -> fst x <> p.
+Proof.
+  unfold conn_of. destruct (find (fun x => fst x =? p) (conns en)) as [x|] eqn:F.
+  - split; [discriminate|]. intros H. apply find_some in F. destruct F as [Hx E]. apply N.eqb_eq in E.
+    destruct (H x Hx E).
+  - split; [|reflexivity]. intros _ x Hx E. pose proof (find_none _ _ F x Hx) as H. cbn in H.
+    rewrite E, N.eqb_refl in H. discriminate.
+Qed.
+
+Lemma NoDup_map_inj {A} (f : A -> N) l a b :
+  NoDup (map f l) -> In a l -> In b l -> f a = f b -> a = b.
+Proof.
+  induction l as [|x l IH]; [intros _ []|]. cbn [map]. intros N Ha Hb E. inversion N as [|? ? Hn N']; subst.
+  destruct Ha as [<-|Ha], Hb as [<-|Hb]; [reflexivity| | |auto].
+  - exfalso. apply Hn. rewrite E. apply in_map. exact Hb.
+  - exfalso. apply Hn. rewrite <- E. apply in_map. exact Ha.
+Qed.
+
+Lemma number_pouts_sids p sid l po :
+  In po (number_pouts p sid l) -> sid <= po_sid po < sid + N.of_nat (length l).
+Proof.
+  revert sid. induction l as [|[a q] l IH]; intros sid; [intros []|].
+  cbn [number_pouts In length]. intros [<-|H]; [cbn [po_sid]; lia|]. specialize (IH _ H). lia.
+Qed.
+Lemma number_pouts_nodup p sid l : NoDup (map po_sid (number_pouts p sid l)).
+Proof.
+  revert sid. induction l as [|[a q] l IH]; intros sid; [constructor|].
+  cbn [number_pouts map po_sid]. constructor; [|apply IH].
+  intros H. apply in_map_iff in H. destruct H as [po [E Hpo]]. apply number_pouts_sids in Hpo. lia.
+Qed.
+Lemma o_opens_map_open p l : o_opens (map (fun po => OOpen (po_sid po) p) l) = map (fun po => (po_sid po, p)) l.
+Proof. unfold o_opens. induction l as [|a l IH]; [reflexivity|]. cbn. rewrite <- IH. reflexivity. Qed.
+Lemma o_quiet_map_fail {A} (g : A -> N) code l :
+  o_dials (map (fun a => OFail (g a) code) l) = [] /\ o_opens (map (fun a => OFail (g a) code) l) = [] /\
+  o_binds (map (fun a => OFail (g a) code) l) = [].
+Proof. apply (ncl_nocall _ (ncl_map_fail g code l)). Qed.
+
+(* DialFailure *)
+Lemma GI_dialfail cf s en g tr p :
+  GI cf s en g ->
+  let r := step cf (s, en) (EDialFail p) in
+  Inv (fst (fst (fst r))) (tr ++ snd (fst r)) ->
+  GI cf (fst (fst (fst r))) (snd (fst (fst r))) (gstep cf (EDialFail p) (snd (fst r)) (snd r) g).
+Proof.
+  intros [G1 G2 G3 G4 G5 G6 G7 G8 G9 G10] r I'. subst r. cbn [step] in *. unfold h_dialfail in *. cbn [fst snd] in *.
+  destruct (o_quiet_map_fail (fun d : N * req => q_rid (snd d)) E_DIAL_FAILED
+              (filter (fun d : N * req => fst d =? p) (dials s))) as (N1 & N2 & N3).
+  unfold gstep. rewrite N1, N2, N3. cbn [map]. rewrite !app_nil_r.
+  constructor; cbn [g_now g_conn g_dials g_opens g_live]; simp_sets;
+    [exact G1|exact G2|exact G3| |exact G5|exact G6|exact G7| |exact G9|].
+  - intros d H. apply filter_In in H. destruct H as [H Hp]. apply filter_In. split; [exact (G4 d H)|].
+    cbn [memN existsb]. rewrite orb_false_r. exact Hp.
+  - rewrite <- (app_nil_r (g_live g)).
+    match type of I' with Inv ?s1 _ => apply (fut_clause_keep s s1 g _ tr []) end;
+      [exact I'|apply FutsKeep_same; reflexivity|intros x Hx; left; exact Hx|exact G8].
+  - intros x Hx. apply filter_In in Hx. exact (G10 x (proj1 Hx)).
+Qed.
+
+Lemma conn_of_filter p q en en' :
+  conns en' = filter (fun x => negb (fst x =? p)) (conns en) ->
+  (conn_of q en' = None <-> conn_of q en = None \/ q = p).
+Proof.
+  intros E. rewrite !conn_of_none. rewrite E. split.
+  - intros H. destruct (N.eq_dec q p) as [->|Hne]; [right; reflexivity|left].
+    intros x Hx Ex. apply (H x); [|exact Ex]. apply filter_In. split; [exact Hx|].
+    rewrite Ex. apply negb_true_iff. apply N.eqb_neq. exact Hne.
+  - intros [H| ->] x Hx Ex; apply filter_In in Hx; destruct Hx as [Hx Hf].
+    + exact (H x Hx Ex).
+    + rewrite Ex, N.eqb_refl in Hf. discriminate.
+Qed.
+
+Lemma NoDup_map_filter {A} (f : A -> N) (g : A -> bool) l : NoDup (map f l) -> NoDup (map f (filter g l)).
+Proof.
+  induction l as [|a l IH]; [auto|]. cbn [map filter]. intros N. inversion N as [|? ? Hn N']; subst.
+  destruct (g a); [|auto]. cbn [map]. constructor; [|auto].
+  intros H. apply Hn. apply in_map_iff in H. destruct H as [x [E Hx]]. apply filter_In in Hx.
+  apply in_map_iff. exists x. tauto.
+Qed.
+
+(* ConnectionClosed of a connected peer *)
+Lemma GI_closed cf s en g tr p b :
+  GI cf s en g -> conn_of p en = Some b ->
+  let r := step cf (s, en) (EClosed p) in
+  Inv (fst (fst (fst r))) (tr ++ snd (fst r)) ->
+  GI cf (fst (fst (fst r))) (snd (fst (fst r))) (gstep cf (EClosed p) (snd (fst r)) (snd r) g).
+Proof.
+  intros [G1 G2 G3 G4 G5 G6 G7 G8 G9 G10] Cp r I'. subst r. cbn [step] in *. rewrite Cp in *.
+  pose proof (closed_ncl s p) as NC. apply ncl_nocall in NC. destruct NC as (N1 & N2 & N3).
+  pose proof (closed_futs s p) as F.
+  assert (Hg : memN p (g_conn g) = true) by (apply memN_in; apply G2; rewrite Cp; discriminate).
+  assert (Sh : fst (h_closed s p) =
+               if memN p (peers s)
+               then set_inb (set_active (set_peers (set_pouts s (filter (fun po => negb (po_peer po =? p)) (pouts s)))
+                                                   (filter (fun x => negb (x =? p)) (peers s)))
+                                        (filter (fun a => negb (fst a =? p)) (active s)))
+                            (filter (fun a => negb (fst a =? p)) (inb s))
+               else set_pouts s (filter (fun po => negb (po_peer po =? p)) (pouts s))).
+  { unfold h_closed. simp_sets. destruct (memN p (peers s)); reflexivity. }
+  assert (A : forall x, In x (active (fst (h_closed s p))) -> In x (active s)).
+  { rewrite Sh. destruct (memN p (peers s)); simp_sets; [intros x H; apply filter_In in H; tauto|auto]. }
+  assert (PF : pouts (fst (h_closed s p)) = filter (fun po => negb (po_peer po =? p)) (pouts s)).
+  { rewrite Sh. destruct (memN p (peers s)); reflexivity. }
+  assert (Po : forall po, In po (pouts (fst (h_closed s p))) -> In po (pouts s) /\ po_peer po <> p).
+  { rewrite PF. intros po H. apply filter_In in H. destruct H as [H Hp]. split; [exact H|].
+    apply negb_true_iff in Hp. apply N.eqb_neq in Hp. exact Hp. }
+  assert (Pe : forall q, In q (peers (fst (h_closed s p))) -> In q (peers s) /\ q <> p).
+  { rewrite Sh. intros q. destruct (memN p (peers s)) eqn:M; simp_sets; intros H.
+    - apply filter_In in H. destruct H as [H Hp]. split; [exact H|]. apply negb_true_iff in Hp. apply N.eqb_neq in Hp. exact Hp.
+    - split; [exact H|]. intros ->. apply memN_in in H. congruence. }
+  assert (D : dials (fst (h_closed s p)) = dials s) by (rewrite Sh; destruct (memN p (peers s)); reflexivity).
+  destruct (h_closed s p) as [s1 o]. cbn [fst snd] in *.
+  unfold gstep. rewrite Hg, N1, N2, N3. cbn [map memN existsb negb]. rewrite !app_nil_r.
+  rewrite (filter_all (fun _ => true)) by reflexivity.
+  assert (HC : forall q, conn_of q (mkE (aux_of en) (next_sid en) (filter (fun x => negb (fst x =? p)) (conns en))
+                            (filter (fun x => negb (snd x =? p)) (opens en)) (chans en) (now en) (hpend en)) = None
+                         <-> conn_of q en = None \/ q = p) by (intros q; apply (conn_of_filter p q); reflexivity).
+  constructor; cbn [g_now g_conn g_dials g_opens g_live now next_sid].
+  - exact G1.
+  - intros q. rewrite filter_In, G2, (HC q). rewrite negb_true_iff, N.eqb_neq.
+    destruct (conn_of q en); split; try tauto; intros H; try (split; [discriminate|]); intuition congruence.
+  - intros q Hq. destruct (Pe q Hq) as [Hq0 Hne]. rewrite (HC q). intros [H|H]; [exact (G3 q Hq0 H)|exact (Hne H)].
+  - rewrite D. exact G4.
+  - intros po H. destruct (Po po H) as [H0 Hne]. apply filter_In. split; [exact (G5 po H0)|].
+    cbn [snd]. apply negb_true_iff. apply N.eqb_neq. exact Hne.
+  - intros po H. exact (G6 po (proj1 (Po po H))).
+  - rewrite PF. apply NoDup_map_filter. exact G7.
+  - rewrite <- (app_nil_r (g_live g)).
+    apply (fut_clause_keep s s1 g o tr []); [exact I'|apply FutsKeep_same; exact F|intros x Hx; left; exact (A x Hx)|exact G8].
+  - intros f Hf. rewrite F in Hf. exact (G9 f Hf).
+  - intros x Hx. apply filter_In in Hx. exact (G10 x (proj1 Hx)).
+Qed.
+
+(* after the entry found under a substream id was dropped, no entry with that id is left *)
+Lemma drop_po_no_sid s sid po po' :
+  NoDup (map po_sid (pouts s)) -> find_po sid (pouts s) = Some po ->
+  In po' (drop_po po (pouts s)) -> In po' (pouts s) /\ po_sid po' <> sid.
+Proof.
+  intros N F H. apply find_some in F. destruct F as [Hin E]. apply N.eqb_eq in E.
+  unfold drop_po in H. apply filter_In in H. destruct H as [H Hr]. split; [exact H|].
+  intros E'. assert (po' = po) by (apply (NoDup_map_inj po_sid (pouts s)); auto; congruence).
+  subst po'. rewrite N.eqb_refl in Hr. discriminate.
+Qed.
+Lemma find_po_none sid l po : find_po sid l = None -> In po l -> po_sid po <> sid.
+Proof. intros F H E. pose proof (find_none _ _ F po H) as X. cbn in X. rewrite E, N.eqb_refl in X. discriminate. Qed.
+
+Lemma gstep_answer_open cf e o sid g :
+  (exists k u, e = EOpenFail k u) \/ (exists k a b, e = EOpened k a b) ->
+  gstep cf e o (Some sid) g =
+  mkG (g_now g) (g_conn g) (g_dials g ++ o_dials o)
+      (filter (fun x => negb (fst x =? sid)) (g_opens g) ++ o_opens o)
+      (filter (fun x => negb (memN (snd (fst x)) (o_terms o)))
+              (g_live g ++ map (fun b => (fst b, snd b, g_now g + tmo cf)) (o_binds o))).
+Proof.
+  intros [[k [u ->]]|[k [a [b ->]]]]; unfold gstep; cbn [memN existsb negb];
+    rewrite (filter_all (fun _ => true)) by reflexivity; reflexivity.
+Qed.
+
+(* SubstreamOpenFailure *)
+Lemma GI_openfail cf s en g tr k u sid q :
+  GI cf s en g -> nth_mod k (opens en) = Some (sid, q) ->
+  let r := step cf (s, en) (EOpenFail k u) in
+  Inv (fst (fst (fst r))) (tr ++ snd (fst r)) ->
+  GI cf (fst (fst (fst r))) (snd (fst (fst r))) (gstep cf (EOpenFail k u) (snd (fst r)) (snd r) g).
+Proof.
+  intros [G1 G2 G3 G4 G5 G6 G7 G8 G9 G10] Nm r I'. subst r. cbn [step] in *. rewrite Nm in *.
+  pose proof (openfail_ncl s sid u) as NC. apply ncl_nocall in NC. destruct NC as (N1 & N2 & N3).
+  pose proof (openfail_futs s sid u) as F. pose proof (openfail_peers s sid u) as Pe.
+  assert (D : dials (fst (h_openfail s sid u)) = dials s) by (unfold h_openfail; destruct (find_po sid (pouts s)); reflexivity).
+  assert (A : forall x, In x (active (fst (h_openfail s sid u))) -> In x (active s)).
+  { unfold h_openfail. destruct (find_po sid (pouts s)); cbn [fst]; simp_sets; [intros x H; apply in_removeP in H; tauto|auto]. }
+  assert (Po : forall po, In po (pouts (fst (h_openfail s sid u))) -> In po (pouts s) /\ po_sid po <> sid).
+  { unfold h_openfail. destruct (find_po sid (pouts s)) as [po0|] eqn:Fp; cbn [fst]; simp_sets; intros po H.
+    - exact (drop_po_no_sid s sid po0 po G7 Fp H).
+    - split; [exact H|exact (find_po_none _ _ _ Fp H)]. }
+  assert (PS : exists l, pouts (fst (h_openfail s sid u)) = filter l (pouts s)).
+  { unfold h_openfail. destruct (find_po sid (pouts s)); cbn [fst]; simp_sets;
+      [eexists; reflexivity|exists (fun _ => true); symmetry; apply filter_all; reflexivity]. }
+  destruct (h_openfail s sid u) as [s1 o]. cbn [fst snd] in *.
+  rewrite gstep_answer_open by (left; eauto). rewrite N1, N2, N3. cbn [map]. rewrite !app_nil_r.
+  constructor; cbn [g_now g_conn g_dials g_opens g_live now next_sid conns].
+  - exact G1.
+  - intros p. rewrite G2. unfold conn_of. cbn [conns]. tauto.
+  - intros p Hp. rewrite Pe in Hp. specialize (G3 p Hp). unfold conn_of in *. cbn [conns]. exact G3.
+  - rewrite D. exact G4.
+  - intros po H. destruct (Po po H) as [H0 Hne]. apply filter_In. split; [exact (G5 po H0)|].
+    cbn [fst]. apply negb_true_iff. apply N.eqb_neq. exact Hne.
+  - intros po H. exact (G6 po (proj1 (Po po H))).
+  - destruct PS as [l ->]. apply NoDup_map_filter. exact G7.
+  - rewrite <- (app_nil_r (g_live g)).
+    apply (fut_clause_keep s s1 g o tr []); [exact I'|apply FutsKeep_same; exact F|intros x Hx; left; exact (A x Hx)|exact G8].
+  - intros f Hf. rewrite F in Hf. exact (G9 f Hf).
+  - intros x Hx. apply filter_In in Hx. exact (G10 x (proj1 Hx)).
+Qed.
+
+Lemma opened_body_futs_dl cf0 s po c gate now neg g :
+  In g (futs (fst (opened_body cf0 s po c gate now neg))) ->
+  In g (futs s) \/ (f_chan g = c /\ rid_f g = rid_po po /\ f_peer g = po_peer po /\ f_dl g = now + tmo cf0).
+Proof.
+  unfold opened_body. cbn [q_rid q_len q_tag q_fb].
+  assert (Hs : forall res, In g (futs (fst (settle (set_pouts s (drop_po po (pouts s))) (po_peer po) (q_rid (po_req po)) res))) -> In g (futs s)).
+  { intros res. unfold settle. destruct (_ && _); cbn [fst]; simp_sets; auto. }
+  destruct (max_size cf0 <? _); [intros H0; left; exact (Hs _ H0)|].
+  destruct gate as [|[x|x|]]; try (intros H0; left; exact (Hs _ H0)); cbn [fst]; simp_sets; intros H0;
+    apply in_app_or in H0; destruct H0 as [H0|[<-|[]]]; auto; right; repeat split.
+Qed.
+Lemma opened_body_active cf0 s po c gate now neg x :
+  In x (active (fst (opened_body cf0 s po c gate now neg))) -> In x (active s).
+Proof.
+  unfold opened_body. cbn [q_rid q_len q_tag q_fb].
+  assert (Hs : forall res, In x (active (fst (settle (set_pouts s (drop_po po (pouts s))) (po_peer po) (q_rid (po_req po)) res))) -> In x (active s))
+    by (intros res; apply (settle_active (set_pouts s (drop_po po (pouts s))))).
+  destruct (max_size cf0 <? _); [apply Hs|]. destruct gate as [|[y|y|]]; try apply Hs; auto.
+Qed.
+
+(* SubstreamOpened (outbound) *)
+Lemma GI_opened cf s en g tr k gate neg sid q :
+  0 < tmo cf -> GI cf s en g -> nth_mod k (opens en) = Some (sid, q) ->
+  let r := step cf (s, en) (EOpened k gate neg) in
+  Inv (fst (fst (fst r))) (tr ++ snd (fst r)) ->
+  GI cf (fst (fst (fst r))) (snd (fst (fst r))) (gstep cf (EOpened k gate neg) (snd (fst r)) (snd r) g).
+Proof.
+  intros T [G1 G2 G3 G4 G5 G6 G7 G8 G9 G10] Nm r I'. subst r. cbn [step] in *. rewrite Nm in *.
+  unfold h_opened in *. destruct (find_po sid (pouts s)) as [po0|] eqn:Fp.
+  - set (c := N.of_nat (length (chans en))) in *.
+    pose proof (opened_body_ncl cf s po0 c (N.min gate 2) (now en) neg) as NC. apply ncl_nocall in NC. destruct NC as (N1 & N2 & N3).
+    pose proof (opened_body_dp cf s po0 c (N.min gate 2) (now en) neg) as (D & P & _).
+    pose proof (opened_body_peers cf s po0 c (N.min gate 2) (now en) neg) as Pe.
+    pose proof (opened_body_futs_dl cf s po0 c (N.min gate 2) (now en) neg) as F.
+    pose proof (opened_body_active cf s po0 c (N.min gate 2) (now en) neg) as A.
+    destruct (opened_body cf s po0 c (N.min gate 2) (now en) neg) as [s1 o]. cbn [fst snd] in *.
+    rewrite gstep_answer_open by (right; eauto).
+    change (o_dials (OBind c (q_rid (po_req po0)) :: o)) with (o_dials o).
+    change (o_opens (OBind c (q_rid (po_req po0)) :: o)) with (o_opens o).
+    change (o_binds (OBind c (q_rid (po_req po0)) :: o)) with ((c, q_rid (po_req po0)) :: o_binds o).
+    change (o_terms (OBind c (q_rid (po_req po0)) :: o)) with (o_terms o).
+    rewrite N1, N2, N3. cbn [map fst snd]. rewrite !app_nil_r.
+    constructor; cbn [g_now g_conn g_dials g_opens g_live now next_sid conns].
+    + exact G1.
+    + intros p. rewrite G2. unfold conn_of. cbn [conns]. tauto.
+    + intros p Hp. rewrite Pe in Hp. specialize (G3 p Hp). unfold conn_of in *. cbn [conns]. exact G3.
+    + rewrite D. exact G4.
+    + rewrite P. intros po H. destruct (drop_po_no_sid s sid po0 po G7 Fp H) as [H0 Hne].
+      apply filter_In. split; [exact (G5 po H0)|]. cbn [fst]. apply negb_true_iff. apply N.eqb_neq. exact Hne.
+    + rewrite P. intros po H. exact (G6 po (proj1 (drop_po_no_sid s sid po0 po G7 Fp H))).
+    + rewrite P. apply NoDup_map_filter. exact G7.
+    + intros f' Hf Ha. destruct (F f' Hf) as [Hold|(E1 & E2 & E3 & E4)].
+      * (* a future that was there before *)
+        destruct (G8 f' Hold (A _ Ha)) as [dl [Hl Hd]]. exists dl. split; [|exact Hd].
+        apply keep_live; [exact Hl|]. cbn [fst snd].
+        destruct (memN (rid_f f') (o_terms o)) eqn:M; [|reflexivity]. apply memN_in in M.
+        exfalso. apply (active_not_term _ _ (OBind c (q_rid (po_req po0)) :: o) _ _ I' Ha). exact M.
+      * (* the new one: its ledger entry is the binding made in this step *)
+        exists (g_now g + tmo cf). split; [|rewrite E4, G1; lia].
+        apply filter_In. split.
+        -- apply in_or_app. right. left. rewrite E1, E2. reflexivity.
+        -- cbn [fst snd]. destruct (memN (rid_f f') (o_terms o)) eqn:M; [|reflexivity]. apply memN_in in M.
+           exfalso. apply (active_not_term _ _ (OBind c (q_rid (po_req po0)) :: o) _ _ I' Ha). exact M.
+    + intros f' Hf. destruct (F f' Hf) as [Hold|(_ & _ & _ & E4)]; [exact (G9 f' Hold)|rewrite E4; lia].
+    + intros x Hx. apply filter_In in Hx. destruct Hx as [Hx _]. apply in_app_or in Hx.
+      destruct Hx as [Hx|[<-|[]]]; [exact (G10 x Hx)|cbn [snd]; lia].
+  - (* no pending_outbound entry under that id: nothing happens *)
+    cbn [fst snd] in *. rewrite gstep_answer_open by (right; eauto). cbn [o_dials o_opens o_binds o_terms flat_map map memN existsb negb].
+    rewrite !app_nil_r. rewrite (filter_all (fun _ => true)) by reflexivity.
+    constructor; cbn [g_now g_conn g_dials g_opens g_live now next_sid conns];
+      [exact G1| | |exact G4| |exact G6|exact G7|exact G8|exact G9|exact G10].
+    + intros p. rewrite G2. unfold conn_of. cbn [conns]. tauto.
+    + intros p Hp. specialize (G3 p Hp). unfold conn_of in *. cbn [conns]. exact G3.
+    + intros po H. apply filter_In. split; [exact (G5 po H)|]. cbn [fst]. apply negb_true_iff. apply N.eqb_neq.
+      exact (find_po_none _ _ _ Fp H).
+Qed.
+
+Lemma o_wired_app c a b : o_wired c (a ++ b) = o_wired c a || o_wired c b.
+Proof. unfold o_wired. apply existsb_app. Qed.
+
+Lemma unblock_futs_dl cf0 s c now g :
+  In g (futs (fst (fut_unblock cf0 s c now))) ->
+  exists f, In f (futs s) /\ f_chan f = f_chan g /\ rid_f f = rid_f g /\ f_peer f = f_peer g /\
+            (f_dl g = f_dl f \/
+             (f_chan g = c /\ f_dl g = now + tmo cf0 /\ o_wired c (snd (fut_unblock cf0 s c now)) = true)).
+Proof.
+  unfold fut_unblock. destruct (find_fut c (futs s)) as [f|]; [|cbn [fst]; intros H; exists g; auto 6].
+  destruct (f_wait f); [cbn [fst]; intros H; exists g; auto 6|]. destruct (f_cancel f).
+  - pose proof (complete_futs_sub s f (RErr E_CANCELED) g) as S. destruct (complete s f _) as [s1 o].
+    cbn [fst] in *. intros H. exists g. auto 6.
+  - cbn [fst snd]. simp_sets. intros H. unfold to_wait in H. apply in_map_iff in H. destruct H as [f0 [<- H0]].
+    exists f0. destruct (f_chan f0 =? c) eqn:E; cbn [f_chan f_req f_peer f_dl rid_f]; repeat split; auto.
+    right. apply N.eqb_eq in E. repeat split; auto. unfold o_wired. cbn [existsb]. rewrite N.eqb_refl. reflexivity.
+Qed.
+
+Lemma unblock_active cf0 s c now x : In x (active (fst (fut_unblock cf0 s c now))) -> In x (active s).
+Proof.
+  unfold fut_unblock. destruct (find_fut c (futs s)) as [f|]; [|auto].
+  destruct (f_wait f); [auto|]. destruct (f_cancel f); [|auto].
+  pose proof (complete_active s f (RErr E_CANCELED) x) as H. destruct (complete s f _) as [s1 o]. exact H.
+Qed.
+
+Lemma gstep_unblock cf k o c g :
+  gstep cf (EUnblock k) o (Some c) g =
+  mkG (g_now g) (g_conn g) (g_dials g ++ o_dials o) (g_opens g ++ o_opens o)
+      (filter (fun x => negb (memN (snd (fst x)) (o_terms o)))
+              ((if o_wired c o
+                then map (fun x => if fst (fst x) =? c then (c, snd (fst x), g_now g + tmo cf) else x) (g_live g)
+                else g_live g) ++ map (fun b => (fst b, snd b, g_now g + tmo cf)) (o_binds o))).
+Proof. unfold gstep. cbn [memN existsb negb]. rewrite (filter_all (fun _ => true)) by reflexivity. reflexivity. Qed.
+
+(* the carrier starts accepting bytes *)
+Lemma GI_unblock cf s en g tr k ch0 chs ch :
+  0 < tmo cf -> GI cf s en g -> chans en = ch0 :: chs ->
+  nth_error (ch0 :: chs) (N.to_nat (k mod N.of_nat (length (ch0 :: chs)))) = Some ch -> c_gate ch =? 0 = true ->
+  let r := step cf (s, en) (EUnblock k) in
+  Inv (fst (fst (fst r))) (tr ++ snd (fst r)) ->
+  GI cf (fst (fst (fst r))) (snd (fst (fst r))) (gstep cf (EUnblock k) (snd (fst r)) (snd r) g).
+Proof.
+  intros T [G1 G2 G3 G4 G5 G6 G7 G8 G9 G10] CH NE GT r I'. subst r. cbn [step] in *. rewrite CH, NE, GT in *.
+  set (c := k mod N.of_nat (length (ch0 :: chs))) in *.
+  pose proof (unblock_ncl cf s c (now en)) as NC1. pose proof (unblock_Keep3 cf s c (now en)) as (D1 & P1 & _).
+  pose proof (unblock_peers cf s c (now en)) as Pe1. pose proof (unblock_futs_dl cf s c (now en)) as F1.
+  pose proof (unblock_active cf s c (now en)) as A1.
+  destruct (fut_unblock cf s c (now en)) as [s1 o1]. cbn [fst snd] in *.
+  pose proof (rsp_gate_ncl s1 c true) as NC2. pose proof (rsp_gate_same s1 c true) as [(D2 & A2 & P2 & F2 & _ & Pe2) _].
+  destruct (rsp_gate s1 c true) as [s2 o2]. cbn [fst snd] in *.
+  pose proof (ncl_nocall _ (ncl_app _ _ NC1 NC2)) as (N1 & N2 & N3).
+  rewrite gstep_unblock. rewrite N1, N2, N3. cbn [map]. rewrite !app_nil_r.
+  constructor; cbn [g_now g_conn g_dials g_opens g_live now next_sid conns].
+  - exact G1.
+  - intros p. rewrite G2. unfold conn_of. cbn [conns]. tauto.
+  - intros p Hp. rewrite Pe2, Pe1 in Hp. specialize (G3 p Hp). unfold conn_of in *. cbn [conns]. exact G3.
+  - rewrite D2, D1. exact G4.
+  - rewrite P2, P1. exact G5.
+  - rewrite P2, P1. exact G6.
+  - rewrite P2, P1. exact G7.
+  - intros f' Hf Ha. rewrite F2 in Hf. rewrite A2 in Ha.
+    destruct (F1 f' Hf) as [f [Hf0 [E1 [E2 [E3 Hdl]]]]].
+    assert (Ha0 : In (f_peer f, rid_f f) (active s)) by (rewrite E2, E3; apply A1; exact Ha).
+    destruct (G8 f Hf0 Ha0) as [dl [Hl Hd]]. specialize (G10 _ Hl). cbn [snd] in G10.
+    assert (Hnt : negb (memN (rid_f f') (o_terms (o1 ++ o2))) = true).
+    { destruct (memN (rid_f f') (o_terms (o1 ++ o2))) eqn:M; [|reflexivity]. apply memN_in in M.
+      exfalso. assert (Ha2 : In (f_peer f', rid_f f') (active s2)) by (rewrite A2; exact Ha).
+      exact (active_not_term _ _ _ _ _ I' Ha2 M). }
+    destruct (o_wired c (o1 ++ o2)) eqn:W.
+    + (* the entries of carrier c were re-armed *)
+      exists (if f_chan f =? c then g_now g + tmo cf else dl). split.
+      * apply filter_In. split; [|cbn [fst snd]; destruct (f_chan f =? c); exact Hnt].
+        apply in_map_iff. exists (f_chan f, rid_f f, dl). split; [|exact Hl]. cbn [fst snd].
+        destruct (N.eqb_spec (f_chan f) c) as [Ec|Ec]; rewrite <- E1, <- E2; [rewrite Ec|]; reflexivity.
+      * destruct Hdl as [Hdl|(Ec & Hdl & _)].
+        -- rewrite Hdl. destruct (f_chan f =? c); lia.
+        -- rewrite Hdl, E1, Ec, N.eqb_refl, G1. lia.
+    + exists dl. split; [apply filter_In; split; [rewrite <- E1, <- E2; exact Hl|exact Hnt]|].
+      destruct Hdl as [Hdl|(_ & _ & W1)]; [rewrite Hdl; exact Hd|].
+      rewrite o_wired_app, W1 in W. discriminate.
+  - intros f' Hf. rewrite F2 in Hf. destruct (F1 f' Hf) as [f [Hf0 [_ [_ [_ Hdl]]]]].
+    destruct Hdl as [Hdl|(_ & Hdl & _)]; [rewrite Hdl; exact (G9 f Hf0)|rewrite Hdl; lia].
+  - intros x Hx. apply filter_In in Hx. destruct Hx as [Hx _].
+    destruct (o_wired c (o1 ++ o2)); [|exact (G10 x Hx)].
+    apply in_map_iff in Hx. destruct Hx as [y [<- Hy]]. specialize (G10 y Hy).
+    destruct (fst (fst y) =? c); cbn [snd]; [lia|exact G10].
+Qed.
+
+Lemma complete_drops s f res g : In g (futs (fst (complete s f res))) -> rid_f g <> rid_f f.
+Proof.
+  unfold complete, settle. destruct (_ && _); cbn [fst]; simp_sets; intros H; unfold drop_fut in H;
+    apply filter_In in H; destruct H as [_ H]; apply negb_true_iff in H; apply N.eqb_neq in H; exact H.
+Qed.
+Lemma complete_all_drops l : forall s res f g,
+  In f l -> In g (futs (fst (complete_all s l res))) -> rid_f g <> rid_f f.
+Proof.
+  induction l as [|a l IH]; intros s res f g Hf; [destruct Hf|]. cbn [complete_all fst].
+  pose proof (complete_drops s a res) as A. pose proof (complete_futs_sub s a res) as S.
+  destruct (complete s a res) as [s1 o1]. cbn [fst] in *.
+  pose proof (IH s1 res) as B. pose proof (complete_all_futs_sub l s1 res) as S2.
+  destruct (complete_all s1 l res) as [s2 o2]. cbn [fst] in *.
+  intros Hg. destruct Hf as [<-|Hf]; [apply A; apply S2; exact Hg|exact (B f g Hf Hg)].
+Qed.
+Lemma advance_remaining s t g : In g (futs (fst (fut_advance s t))) -> t < f_dl g.
+Proof.
+  unfold fut_advance. intros H. destruct (N.lt_ge_cases t (f_dl g)) as [L|L]; [exact L|exfalso].
+  pose proof (complete_all_futs_sub _ _ _ _ H) as H0.
+  apply (complete_all_drops (filter (fun f => f_dl f <=? t) (futs s)) s (RErr E_TIMEOUT) g g); [|exact H|reflexivity].
+  apply filter_In. split; [exact H0|]. apply N.leb_le. exact L.
+Qed.
+
+Lemma gstep_advance cf dt o tg g :
+  gstep cf (EAdvance dt) o tg g =
+  mkG (g_now g + dt) (g_conn g) (g_dials g ++ o_dials o) (g_opens g ++ o_opens o)
+      (filter (fun x => negb (memN (snd (fst x)) (o_terms o)))
+              (g_live g ++ map (fun b => (fst b, snd b, g_now g + tmo cf)) (o_binds o))).
+Proof. unfold gstep. cbn [memN existsb negb]. rewrite (filter_all (fun _ => true)) by reflexivity. reflexivity. Qed.
+
+(* the clock advances *)
+Lemma GI_advance cf s en g tr dt :
+  GI cf s en g ->
+  let r := step cf (s, en) (EAdvance dt) in
+  Inv (fst (fst (fst r))) (tr ++ snd (fst r)) ->
+  GI cf (fst (fst (fst r))) (snd (fst (fst r))) (gstep cf (EAdvance dt) (snd (fst r)) (snd r) g).
+Proof.
+  intros [G1 G2 G3 G4 G5 G6 G7 G8 G9 G10] r I'. subst r. cbn [step] in *.
+  pose proof (advance_ncl s (now en + dt)) as NC1. pose proof (complete_all_Keep3 (filter (fun f => f_dl f <=? now en + dt) (futs s)) s (RErr E_TIMEOUT)) as (D1 & P1 & _).
+  pose proof (advance_peers s (now en + dt)) as Pe1. pose proof (advance_remaining s (now en + dt)) as R1.
+  pose proof (complete_all_futs_sub (filter (fun f => f_dl f <=? now en + dt) (futs s)) s (RErr E_TIMEOUT)) as S1.
+  pose proof (complete_all_active (filter (fun f => f_dl f <=? now en + dt) (futs s)) s (RErr E_TIMEOUT)) as A1.
+  unfold fut_advance in *. destruct (complete_all s _ (RErr E_TIMEOUT)) as [s1 o1]. cbn [fst snd] in *.
+  pose proof (ncl_nocall _ (ncl_app _ _ NC1 (adv_out_ncl s1 (now en + dt)))) as (N1 & N2 & N3).
+  rewrite gstep_advance. rewrite N1, N2, N3. cbn [map]. rewrite !app_nil_r.
+  constructor; cbn [g_now g_conn g_dials g_opens g_live now next_sid conns]; unfold rsp_advance; simp_sets.
+  - rewrite G1. reflexivity.
+  - intros p. rewrite G2. unfold conn_of. cbn [conns]. tauto.
+  - intros p Hp. rewrite Pe1 in Hp. specialize (G3 p Hp). unfold conn_of in *. cbn [conns]. exact G3.
+  - rewrite D1. exact G4.
+  - rewrite P1. exact G5.
+  - rewrite P1. exact G6.
+  - rewrite P1. exact G7.
+  - rewrite <- (app_nil_r (g_live g)).
+    match type of I' with Inv ?sx _ => apply (fut_clause_keep s sx g _ tr []) end;
+      [exact I'|apply FutsKeep_sub; exact S1|intros x Hx; left; exact (A1 _ Hx)|exact G8].
+  - intros f Hf. exact (R1 f Hf).
+  - intros x Hx. apply filter_In in Hx. specialize (G10 x (proj1 Hx)). lia.
+Qed.
+
+Lemma o_dials_app a b : o_dials (a ++ b) = o_dials a ++ o_dials b.
+Proof. apply flat_map_app. Qed.
+Lemma o_opens_app a b : o_opens (a ++ b) = o_opens a ++ o_opens b.
+Proof. apply flat_map_app. Qed.
+Lemma o_binds_app a b : o_binds (a ++ b) = o_binds a ++ o_binds b.
+Proof. apply flat_map_app. Qed.
+Lemma o_dials_map_open p l : o_dials (map (fun po => OOpen (po_sid po) p) l) = [].
+Proof. induction l; [reflexivity|exact IHl]. Qed.
+Lemma o_binds_map_open p l : o_binds (map (fun po => OOpen (po_sid po) p) l) = [].
+Proof. induction l; [reflexivity|exact IHl]. Qed.
+
+Lemma conn_of_snoc p b q en en' :
+  conns en' = conns en ++ [(p, b)] ->
+  (conn_of q en' = None <-> conn_of q en = None /\ q <> p).
+Proof.
+  intros E. rewrite !conn_of_none. rewrite E. split.
+  - intros H. split.
+    + intros x Hx. apply H. apply in_or_app. left. exact Hx.
+    + intros ->. apply (H (p, b)); [apply in_or_app; right; left; reflexivity|reflexivity].
+  - intros [H Hne] x Hx. apply in_app_or in Hx. destruct Hx as [Hx|[<-|[]]]; [exact (H x Hx)|].
+    cbn [fst]. intros Ep. apply Hne. symmetry. exact Ep.
+Qed.
+
+Lemma gstep_established cf p b cap o tg g :
+  memN p (g_conn g) = false ->
+  gstep cf (EEstablished p b cap) o tg g =
+  mkG (g_now g) (g_conn g ++ [p]) (filter (fun x => negb (x =? p)) (g_dials g) ++ o_dials o) (g_opens g ++ o_opens o)
+      (filter (fun x => negb (memN (snd (fst x)) (o_terms o)))
+              (g_live g ++ map (fun b => (fst b, snd b, g_now g + tmo cf)) (o_binds o))).
+Proof.
+  intros H. unfold gstep. rewrite H. cbn [memN existsb].
+  f_equal. f_equal. apply filter_ext. intros x. rewrite orb_false_r. reflexivity.
+Qed.
+
+(* ConnectionEstablished for a peer that was not connected *)
+Lemma GI_established cf s en g tr p broken cap :
+  GI cf s en g -> Inv s tr -> conn_of p en = None ->
+  let r := step cf (s, en) (EEstablished p broken cap) in
+  Inv (fst (fst (fst r))) (tr ++ snd (fst r)) ->
+  GI cf (fst (fst (fst r))) (snd (fst (fst r))) (gstep cf (EEstablished p broken cap) (snd (fst r)) (snd r) g).
+Proof.
+  intros [G1 G2 G3 G4 G5 G6 G7 G8 G9 G10] I Cp r I'. subst r. cbn [step] in *. rewrite Cp in *.
+  assert (Hp : memN p (peers s) = false).
+  { destruct (memN p (peers s)) eqn:M; [|reflexivity]. apply memN_in in M. destruct (G3 p M Cp). }
+  assert (Hg : memN p (g_conn g) = false).
+  { destruct (memN p (g_conn g)) eqn:M; [|reflexivity]. apply memN_in in M. apply G2 in M. destruct (M Cp). }
+  rewrite Hp in *. unfold h_established in *. rewrite Hp in *. simp_sets.
+  set (nok := est_nok broken cap (length (filter (fun d : N * req => fst d =? p) (dials s)))) in *.
+  rewrite (gstep_established _ _ _ _ _ _ _ Hg).
+  assert (HC : forall en1 q, conns en1 = conns en ++ [(p, negb broken)] ->
+                             (conn_of q en1 = None <-> conn_of q en = None /\ q <> p))
+    by (intros en1 q E; apply (conn_of_snoc p (negb broken) q en en1 E)).
+  assert (Gconn : forall en1, conns en1 = conns en ++ [(p, negb broken)] ->
+                              forall q, In q (g_conn g ++ [p]) <-> conn_of q en1 <> None).
+  { intros en1 E q. rewrite (HC en1 q E). split.
+    - intros H [H1 H2]. apply in_app_or in H. destruct H as [H|[<-|[]]]; [apply (proj1 (G2 q) H H1)|exact (H2 eq_refl)].
+    - intros H. apply in_or_app. destruct (N.eq_dec q p) as [->|Hne]; [right; left; reflexivity|left].
+      apply G2. intros H1. apply H. split; assumption. }
+  assert (Gdial : forall d, In d (filter (fun d : N * req => negb (fst d =? p)) (dials s)) ->
+                            In (fst d) (filter (fun x => negb (x =? p)) (g_dials g))).
+  { intros d H. apply filter_In in H. destruct H as [H Hd]. apply filter_In. split; [exact (G4 d H)|exact Hd]. }
+  assert (Gfut : forall s1 o1 E act', futs s1 = futs s -> active s1 = act' -> Inv s1 (tr ++ o1) ->
+            (forall x, In x act' -> In x (active s) \/ (1 <= cd (snd x) s)%nat) ->
+            forall f', In f' (futs s1) -> In (f_peer f', rid_f f') (active s1) ->
+            exists dl, In (f_chan f', rid_f f', dl)
+                          (filter (fun y => negb (memN (snd (fst y)) (o_terms o1))) (g_live g ++ E)) /\ f_dl f' <= dl).
+  { intros s1 o1 E act' F A Is Hact. apply (fut_clause_keep s s1 g o1 tr E Is); [apply FutsKeep_same; exact F| |exact G8].
+    intros x Hx. rewrite A in Hx. destruct (Hact x Hx) as [H|H]; [left; exact H|right].
+    intros f Hf Ef. destruct (fut_rid_known _ _ _ I Hf) as [_ Z]. rewrite Ef in Z. lia. }
+  destruct (filter (fun d : N * req => fst d =? p) (dials s)) as [|d0 mine] eqn:M; cbn [fst snd] in *.
+  - (* nobody waited for this peer *)
+    cbn [o_dials o_opens o_binds o_terms flat_map map]. rewrite !app_nil_r.
+    constructor; cbn [g_now g_conn g_dials g_opens g_live now next_sid conns]; simp_sets.
+    + exact G1.
+    + apply Gconn. reflexivity.
+    + intros q Hq. apply in_app_or in Hq. match goal with |- context [conn_of q ?e1] => rewrite (HC e1 q eq_refl) end.
+      intros [H1 H2]. destruct Hq as [Hq|[<-|[]]]; [exact (G3 q Hq H1)|exact (H2 eq_refl)].
+    + exact Gdial.
+    + exact G5.
+    + intros po H. specialize (G6 po H). lia.
+    + exact G7.
+    + rewrite <- (app_nil_r (g_live g)). cbn [memN existsb negb]. 
+      match type of I' with Inv ?sx _ => apply (Gfut sx [] [] (active s) eq_refl eq_refl I') end. intros x Hx. left. exact Hx.
+    + exact G9.
+    + intros x Hx. apply filter_In in Hx. exact (G10 x (proj1 Hx)).
+  - change (fun d : N * req => OFail (q_rid (snd d)) E_SUBSTREAM) with (fun d : N * req => OFail (rid_d d) E_SUBSTREAM) in *.
+    destruct (o_quiet_map_fail rid_d E_SUBSTREAM (skipn nok (d0 :: mine))) as (N1 & N2 & N3).
+    assert (Hmine : forall d, In d (d0 :: mine) -> In d (dials s) /\ fst d = p).
+    { intros d Hd. rewrite <- M in Hd. apply filter_In in Hd. destruct Hd as [Hd E]. split; [exact Hd|apply N.eqb_eq; exact E]. }
+    destruct (firstn nok (d0 :: mine)) as [|x okl] eqn:Fo; cbn [fst snd] in *.
+    + (* every open_substream failed: the peer is not registered *)
+      rewrite N1, N2, N3. cbn [map]. rewrite !app_nil_r.
+      constructor; cbn [g_now g_conn g_dials g_opens g_live now next_sid conns]; simp_sets.
+      * exact G1.
+      * apply Gconn. reflexivity.
+      * intros q Hq. match goal with |- context [conn_of q ?e1] => rewrite (HC e1 q eq_refl) end. intros [H1 H2]. exact (G3 q Hq H1).
+      * exact Gdial.
+      * exact G5.
+      * intros po H. specialize (G6 po H). lia.
+      * exact G7.
+      * rewrite <- (app_nil_r (g_live g)).
+        match type of I' with Inv ?sx _ => apply (Gfut sx _ [] (active s) eq_refl eq_refl I') end. intros y Hy. left. exact Hy.
+      * exact G9.
+      * intros y Hy. apply filter_In in Hy. exact (G10 y (proj1 Hy)).
+    + (* at least one substream is being opened *)
+      assert (Hokl : forall d, In d (x :: okl) -> In d (d0 :: mine)).
+      { intros d Hd. rewrite <- Fo in Hd. rewrite <- (firstn_skipn nok (d0 :: mine)). apply in_or_app. left. exact Hd. }
+      assert (Hlen : (length (x :: okl) <= length (d0 :: mine))%nat) by (rewrite <- Fo, firstn_length; lia).
+      rewrite o_dials_app, o_opens_app, o_binds_app, N1, N2, N3, o_opens_map_open, o_dials_map_open, o_binds_map_open.
+      cbn [app map]. rewrite !app_nil_r.
+      constructor; cbn [g_now g_conn g_dials g_opens g_live now next_sid conns]; simp_sets.
+      * exact G1.
+      * apply Gconn. reflexivity.
+      * intros q Hq. apply in_app_or in Hq. match goal with |- context [conn_of q ?e1] => rewrite (HC e1 q eq_refl) end.
+        intros [H1 H2]. destruct Hq as [Hq|[<-|[]]]; [exact (G3 q Hq H1)|exact (H2 eq_refl)].
+      * exact Gdial.
+      * intros po H. apply in_app_or in H. apply in_or_app. destruct H as [H|H]; [left; exact (G5 po H)|right].
+        destruct (number_pouts_in _ _ _ _ H) as [E _]. rewrite E. apply in_map_iff. exists po. split; [reflexivity|exact H].
+      * intros po H. apply in_app_or in H. destruct H as [H|H]; [specialize (G6 po H); lia|].
+        apply number_pouts_sids in H. lia.
+      * rewrite map_app. (* old ids are below next_sid, new ones start there *)
+        assert (ND : forall l1 l2 : list N, NoDup l1 -> NoDup l2 -> (forall a, In a l1 -> In a l2 -> False) -> NoDup (l1 ++ l2)).
+        { induction l1 as [|a l1 IH]; intros l2 H1 H2 H3; [exact H2|]. inversion H1; subst. cbn. constructor.
+          - intros Hin. apply in_app_or in Hin. destruct Hin as [Hin|Hin]; [contradiction|]. apply (H3 a); [left; reflexivity|exact Hin].
+          - apply IH; auto. intros b Hb1 Hb2. apply (H3 b); [right; exact Hb1|exact Hb2]. }
+        apply ND; [exact G7|apply number_pouts_nodup|].
+        intros a H1 H2. apply in_map_iff in H1. destruct H1 as [po1 [<- Hp1]]. specialize (G6 po1 Hp1).
+        apply in_map_iff in H2. destruct H2 as [po2 [E Hp2]]. apply number_pouts_sids in Hp2. lia.
+      * rewrite <- (app_nil_r (g_live g)).
+        match type of I' with Inv ?sx _ =>
+          apply (Gfut sx _ [] (active s ++ map (fun d : N * req => (p, q_rid (snd d))) (x :: okl)) eq_refl eq_refl I') end.
+        intros y Hy. apply in_app_or in Hy. destruct Hy as [Hy|Hy]; [left; exact Hy|right].
+        apply in_map_iff in Hy. destruct Hy as [d [<- Hd]]. cbn [snd].
+        apply cnt_pos_in. apply in_map_iff. exists d. split; [reflexivity|exact (proj1 (Hmine d (Hokl d Hd)))].
+      * exact G9.
+      * intros y Hy. apply filter_In in Hy. destruct Hy as [Hy _]. exact (G10 y Hy).
+Qed.
+
+(* stimuli that do nothing leave the ghost alone *)
+Lemma ghost_eta g : mkG (g_now g) (g_conn g) (g_dials g) (g_opens g) (g_live g) = g.
+Proof. destruct g. reflexivity. Qed.
+
+Lemma gstep_est_noop cf p b c tg g : memN p (g_conn g) = true -> gstep cf (EEstablished p b c) [] tg g = g.
+Proof.
+  intros H. unfold gstep. rewrite H. cbn [o_dials o_opens o_binds o_terms flat_map map memN existsb negb].
+  rewrite !app_nil_r, !(filter_all (fun _ => true)) by reflexivity. apply ghost_eta.
+Qed.
+Lemma gstep_closed_noop cf p tg g : memN p (g_conn g) = false -> gstep cf (EClosed p) [] tg g = g.
+Proof.
+  intros H. unfold gstep. rewrite H. cbn [o_dials o_opens o_binds o_terms flat_map map memN existsb negb].
+  rewrite !app_nil_r, !(filter_all (fun _ => true)) by reflexivity.
+  rewrite (filter_all (fun x => negb (x =? p))); [apply ghost_eta|].
+  intros x Hx. apply negb_true_iff. apply N.eqb_neq. intros ->. apply memN_in in Hx. congruence.
+Qed.
+Lemma gstep_unblock_noop cf k tg g : gstep cf (EUnblock k) [] tg g = g.
+Proof.
+  unfold gstep. destruct tg; cbn [o_wired existsb o_dials o_opens o_binds o_terms flat_map map memN negb];
+    rewrite !app_nil_r, !(filter_all (fun _ => true)) by reflexivity; apply ghost_eta.
+Qed.
+
+Lemma conn_of_map_keys p q en en' :
+  conns en' = map (fun x => if fst x =? p then (p, false) else x) (conns en) ->
+  (conn_of q en' = None <-> conn_of q en = None).
+Proof.
+  intros E. rewrite !conn_of_none, E. split.
+  - intros H x Hx Ex. apply (H (if fst x =? p then (p, false) else x));
+      [exact (in_map (fun x0 : N * bool => if fst x0 =? p then (p, false) else x0) _ _ Hx)|].
+    destruct (N.eqb_spec (fst x) p); cbn [fst]; congruence.
+  - intros H y Hy Ey. apply in_map_iff in Hy. destruct Hy as [x [<- Hx]].
+    destruct (N.eqb_spec (fst x) p) as [Ep|Ep]; cbn [fst] in Ey; apply (H x Hx); congruence.
+Qed.
+
+Lemma conn_same_conns en en' : conns en' = conns en -> forall p, conn_of p en' = None <-> conn_of p en = None.
+Proof. intros E p. unfold conn_of. rewrite E. tauto. Qed.
+
+Ltac gi_inert G I' HI HN :=
+  eapply GI_inert; [exact G|exact I'|exact HI|exact HN|reflexivity|reflexivity|(apply conn_same_conns; reflexivity)|(cbn; lia)].
+
+Lemma step_GI cf s en g tr e :
+  0 < tmo cf -> GI cf s en g -> Inv s tr ->
+  let r := step cf (s, en) e in
+  Inv (fst (fst (fst r))) (tr ++ snd (fst r)) ->
+  GI cf (fst (fst (fst r))) (snd (fst (fst r))) (gstep cf e (snd (fst r)) (snd r) g).
+Proof.
+  intros T G I r I'. subst r. destruct e.
+  - apply (GI_send cf s en g tr); assumption.
+  - (* cancel *)
+    cbn [step] in *. pose proof (cancel_Inert s rid) as In0. pose proof (cancel_ncl s rid) as NC.
+    destruct (h_cancel s rid) as [s1 o]. cbn [fst snd] in *.
+    gi_inert G I' In0 (ncl_nocall _ NC).
+  - (* established *)
+    destruct (conn_of p en) as [b0|] eqn:Cp.
+    + cbn [step] in *. rewrite Cp in *. cbn [fst snd] in *. rewrite gstep_est_noop; [exact G|].
+      apply memN_in. apply (gi_conn _ _ _ _ G). rewrite Cp. discriminate.
+    + apply (GI_established cf s en g tr); assumption.
+  - (* closed *)
+    destruct (conn_of p en) as [b0|] eqn:Cp.
+    + apply (GI_closed cf s en g tr p b0); assumption.
+    + cbn [step] in *. rewrite Cp in *. cbn [fst snd] in *. rewrite gstep_closed_noop; [exact G|].
+      destruct (memN p (g_conn g)) eqn:M; [|reflexivity]. apply memN_in in M. apply (gi_conn _ _ _ _ G) in M. destruct (M Cp).
+  - apply (GI_dialfail cf s en g tr); assumption.
+  - (* opened *)
+    destruct (nth_mod k (opens en)) as [[sid q]|] eqn:Nm.
+    + apply (GI_opened cf s en g tr k gate neg sid q); assumption.
+    + cbn [step] in *. rewrite Nm in *. cbn [fst snd] in *.
+      gi_inert G I' (Inert_refl s) nocall_nil.
+  - destruct (nth_mod k (opens en)) as [[sid q]|] eqn:Nm.
+    + apply (GI_openfail cf s en g tr k unsupported sid q); assumption.
+    + cbn [step] in *. rewrite Nm in *. cbn [fst snd] in *.
+      gi_inert G I' (Inert_refl s) nocall_nil.
+  - (* unblock *)
+    destruct (chans en) as [|ch0 chs] eqn:CH.
+    + cbn [step] in *. rewrite CH in *. cbn [fst snd] in *. rewrite gstep_unblock_noop. exact G.
+    + destruct (nth_error (ch0 :: chs) (N.to_nat (k mod N.of_nat (length (ch0 :: chs))))) as [ch|] eqn:NE.
+      * destruct (c_gate ch =? 0) eqn:GT.
+        -- apply (GI_unblock cf s en g tr k ch0 chs ch); assumption.
+        -- cbn [step] in *. rewrite CH, NE, GT in *. cbn [fst snd] in *. rewrite gstep_unblock_noop. exact G.
+      * cbn [step] in *. rewrite CH, NE in *. cbn [fst snd] in *. rewrite gstep_unblock_noop. exact G.
+  - (* write side breaks *)
+    cbn [step] in *. destruct (chans en) as [|ch0 chs] eqn:CH; cbn [fst snd] in *;
+      [gi_inert G I' (Inert_refl s) nocall_nil|].
+    destruct (nth_error _ _) as [ch|]; cbn [fst snd] in *;
+      [|gi_inert G I' (Inert_refl s) nocall_nil].
+    destruct (c_gate ch =? 2); cbn [fst snd] in *;
+      [gi_inert G I' (Inert_refl s) nocall_nil|].
+    pose proof (breakw_Inert s (k mod N.of_nat (length (ch0 :: chs)))) as In1.
+    pose proof (breakw_ncl s (k mod N.of_nat (length (ch0 :: chs)))) as NC1.
+    destruct (fut_breakw _ _) as [s1 o1]. cbn [fst snd] in *.
+    pose proof (rsp_gate_same s1 (k mod N.of_nat (length (ch0 :: chs))) false) as [SL _].
+    pose proof (rsp_gate_ncl s1 (k mod N.of_nat (length (ch0 :: chs))) false) as NC2.
+    destruct (rsp_gate _ _ _) as [s2 o2]. cbn [fst snd] in *.
+    eapply (GI_inert cf s en g s2 _ _ (o1 ++ o2) _ tr); [exact G|exact I'| | |reflexivity|reflexivity| |cbn; lia].
+    + exact (Inert_trans _ _ _ In1 (same_ledger_Inert _ _ SL)).
+    + apply ncl_nocall. apply ncl_app; assumption.
+    + apply conn_same_conns. reflexivity.
+  - (* the remote answers *)
+    cbn [step] in *. destruct (chans en) as [|ch0 chs] eqn:CH; cbn [fst snd] in *;
+      [gi_inert G I' (Inert_refl s) nocall_nil|].
+    destruct (nth_error _ _) as [ch|]; cbn [fst snd] in *;
+      [|gi_inert G I' (Inert_refl s) nocall_nil].
+    destruct (c_out ch && c_seen ch); cbn [fst snd] in *;
+      [|gi_inert G I' (Inert_refl s) nocall_nil].
+    match goal with |- context [fut_read s ?c ?r] =>
+      pose proof (read_Inert s c r) as In1; pose proof (read_ncl s c r) as NC1; destruct (fut_read s c r) as [s1 o] end.
+    cbn [fst snd] in *.
+    gi_inert G I' In1 (ncl_nocall _ NC1).
+  - (* end of stream *)
+    cbn [step] in *. destruct (chans en) as [|ch0 chs] eqn:CH; cbn [fst snd] in *;
+      [gi_inert G I' (Inert_refl s) nocall_nil|].
+    destruct (nth_error _ _) as [ch|]; cbn [fst snd] in *;
+      [|gi_inert G I' (Inert_refl s) nocall_nil].
+    destruct (c_out ch); [destruct (c_seen ch)|]; cbn [fst snd] in *;
+      try (gi_inert G I' (Inert_refl s) nocall_nil).
+    + match goal with |- context [fut_read s ?c ?r] =>
+        pose proof (read_Inert s c r) as In1; pose proof (read_ncl s c r) as NC1; destruct (fut_read s c r) as [s1 o] end.
+      cbn [fst snd] in *. gi_inert G I' In1 (ncl_nocall _ NC1).
+    + match goal with |- context [h_inread s ?c ?gd ?l ?t] =>
+        pose proof (inread_same s c gd l t) as [SL _]; pose proof (inread_ncl s c gd l t) as NC1;
+        destruct (h_inread s c gd l t) as [s1 o] end.
+      cbn [fst snd] in *.
+      gi_inert G I' (same_ledger_Inert _ _ SL) (ncl_nocall _ NC1).
+  - (* read error *)
+    cbn [step] in *. destruct (chans en) as [|ch0 chs] eqn:CH; cbn [fst snd] in *;
+      [gi_inert G I' (Inert_refl s) nocall_nil|].
+    destruct (nth_error _ _) as [ch|]; cbn [fst snd] in *;
+      [|gi_inert G I' (Inert_refl s) nocall_nil].
+    destruct (c_out ch); [destruct (c_seen ch)|]; cbn [fst snd] in *;
+      try (gi_inert G I' (Inert_refl s) nocall_nil).
+    + match goal with |- context [fut_read s ?c ?r] =>
+        pose proof (read_Inert s c r) as In1; pose proof (read_ncl s c r) as NC1; destruct (fut_read s c r) as [s1 o] end.
+      cbn [fst snd] in *. gi_inert G I' In1 (ncl_nocall _ NC1).
+    + match goal with |- context [h_inread s ?c ?gd ?l ?t] =>
+        pose proof (inread_same s c gd l t) as [SL _]; pose proof (inread_ncl s c gd l t) as NC1;
+        destruct (h_inread s c gd l t) as [s1 o] end.
+      cbn [fst snd] in *.
+      gi_inert G I' (same_ledger_Inert _ _ SL) (ncl_nocall _ NC1).
+  - apply (GI_advance cf s en g tr); assumption.
+  - (* inbound substream *)
+    cbn [step] in *. destruct (conn_of p en); cbn [fst snd] in *;
+      [|gi_inert G I' (Inert_refl s) nocall_nil].
+    pose proof (inopen_same cf s p (N.of_nat (length (chans en))) neg) as [SL O].
+    destruct (h_inopen _ _ _ _ _) as [s1 o]. cbn [fst snd] in *. subst o.
+    eapply (GI_inert cf s en g s1 _ _ [] _ tr); [exact G|exact I'|apply same_ledger_Inert; exact SL|apply nocall_nil|reflexivity|reflexivity| |cbn; lia].
+    apply conn_same_conns. reflexivity.
+  - (* inbound request *)
+    cbn [step] in *. destruct (chans en) as [|ch0 chs] eqn:CH; cbn [fst snd] in *;
+      [gi_inert G I' (Inert_refl s) nocall_nil|].
+    destruct (nth_error _ _) as [ch|]; cbn [fst snd] in *;
+      [|gi_inert G I' (Inert_refl s) nocall_nil].
+    destruct (negb (c_out ch)); cbn [fst snd] in *;
+      [|gi_inert G I' (Inert_refl s) nocall_nil].
+    match goal with |- context [h_inread s ?c ?gd ?l ?t] =>
+      pose proof (inread_same s c gd l t) as [SL _]; pose proof (inread_ncl s c gd l t) as NC1;
+      destruct (h_inread s c gd l t) as [s1 o] end.
+    cbn [fst snd] in *.
+    eapply (GI_inert cf s en g s1 _ _ o _ tr); [exact G|exact I'|apply same_ledger_Inert; exact SL|apply ncl_nocall; exact NC1|reflexivity|reflexivity| |cbn; lia].
+    apply conn_same_conns. reflexivity.
+  - (* send_response *)
+    cbn [step] in *. destruct (nth_mod k (hpend en)) as [irid|]; cbn [fst snd] in *;
+      [|gi_inert G I' (Inert_refl s) nocall_nil].
+    match goal with |- context [h_uresp cf s ?a ?b ?c ?f ?d ?e0] =>
+      pose proof (uresp_same cf s a b c f d e0) as [SL _]; pose proof (uresp_ncl cf s a b c f d e0) as NC1;
+      destruct (h_uresp cf s a b c f d e0) as [s1 o] end.
+    cbn [fst snd] in *.
+    eapply (GI_inert cf s en g s1 _ _ o _ tr); [exact G|exact I'|apply same_ledger_Inert; exact SL|apply ncl_nocall; exact NC1|reflexivity|reflexivity| |cbn; lia].
+    apply conn_same_conns. reflexivity.
+  - (* reject_request *)
+    cbn [step] in *. destruct (nth_mod k (hpend en)) as [irid|]; cbn [fst snd] in *;
+      [|gi_inert G I' (Inert_refl s) nocall_nil].
+    unfold h_urej in *. cbn [fst snd] in *.
+    eapply (GI_inert cf s en g _ _ _ [] _ tr); [exact G|exact I'| |apply nocall_nil|reflexivity|reflexivity| |cbn; lia].
+    + repeat split; auto. apply FutsKeep_same. reflexivity.
+    + apply conn_same_conns. reflexivity.
+  - (* the connection stops reading commands *)
+    cbn [step] in *. cbn [fst snd] in *.
+    eapply (GI_inert cf s en g s _ _ [] _ tr); [exact G|exact I'|apply Inert_refl|apply nocall_nil|reflexivity|reflexivity| |cbn; lia].
+    intros q. apply (conn_of_map_keys p q en). reflexivity.
+  - (* a request id burned by a clogged try_send_request *)
+    cbn [step] in *. unfold h_burn in *. cbn [fst snd] in *.
+    eapply (GI_inert cf s en g _ en _ [] _ tr); [exact G|exact I'| |apply nocall_nil|reflexivity|reflexivity|tauto|lia].
+    repeat split; auto. apply FutsKeep_same. reflexivity.
+  - cbn [step] in *. cbn [fst snd] in *.
+    eapply (GI_inert cf s en g s _ _ [] _ tr); [exact G|exact I'|apply Inert_refl|apply nocall_nil|reflexivity|reflexivity| |cbn; lia].
+    apply conn_same_conns. reflexivity.
+  - cbn [step] in *. cbn [fst snd] in *.
+    eapply (GI_inert cf s en g s _ _ [] _ tr); [exact G|exact I'|apply Inert_refl|apply nocall_nil|reflexivity|reflexivity| |cbn; lia].
+    apply conn_same_conns. reflexivity.
+Qed.
+
+Lemma run_GI cf evs : forall s en g tr,
+  0 < tmo cf -> GI cf s en g -> Inv s tr ->
+  GI cf (fst (fst (run cf (s, en) evs))) (snd (fst (run cf (s, en) evs)))
+        (grun cf g (run_steps cf (s, en) evs)).
+Proof.
+  induction evs as [|e evs IH]; intros s en g tr T G I; cbn [run run_steps grun fst snd]; [exact G|].
+  pose proof (step_Inv cf s en e tr I) as I'. pose proof (step_GI cf s en g tr e T G I) as G'. cbn zeta in G'.
+  specialize (G' I').
+  destruct (step cf (s, en) e) as [[[s1 en1] o] tg]. cbn [fst snd] in *.
+  specialize (IH s1 en1 _ (tr ++ o) T G' I').
+  destruct (run cf (s1, en1) evs) as [[s2 en2] o2]. cbn [fst snd grun] in *. exact IH.
+Qed.
+
+(* when the environment has discharged what it owes, nothing is owed by the protocol *)
+Lemma discharged_settled cf s en g tr :
+  GI cf s en g -> Inv3 s -> Inv s tr -> discharged g -> settled s.
+Proof.
+  intros G [C _] I (Dd & Do & Dl). split.
+  - destruct (dials s) as [|d l] eqn:E; [reflexivity|].
+    assert (H : In (fst d) (g_dials g)) by (apply (gi_dial _ _ _ _ G); rewrite E; left; reflexivity).
+    rewrite Dd in H. destruct H.
+  - assert (Hno : forall x, In x (active s) -> False).
+    { intros x Hx. destruct (C x Hx) as [[po [Hpo _]]|[f [Hf Ef]]].
+      - pose proof (gi_po _ _ _ _ G po Hpo) as H. rewrite Do in H. destruct H.
+      - rewrite <- Ef in Hx. destruct (gi_fut _ _ _ _ G f Hf Hx) as [dl [Hl Hd]].
+        specialize (Dl _ Hl). cbn [snd] in Dl. pose proof (gi_dl _ _ _ _ G f Hf) as L.
+        rewrite (gi_now _ _ _ _ G) in Dl. lia. }
+    destruct (active s) as [|x l]; [reflexivity|]. destruct (Hno x (or_introl eq_refl)).
+Qed.
+
+(* Exactly one terminal event per accepted request once the environment has discharged
+   everything it owes — the premise is the transport contract, not a property of the
+   protocol's final state. *)
+Theorem exactly_one_contract cf evs r :
+  0 < tmo cf ->
+  let res := run cf (init_pst, init_env) evs in
+  discharged (grun cf g0 (run_steps cf (init_pst, init_env) evs)) ->
+  In (OSent r) (snd res) ->
+  terms r (snd res) = 1%nat \/ In r (cancel_reqs evs).
+Proof.
+  intros T res D. apply exactly_one_settled.
+  pose proof (run_GI cf evs init_pst init_env g0 [] T (GI_init cf) Inv_init) as G.
+  pose proof (run_Inv3 cf evs (init_pst, init_env) [] Inv_init Inv3_init) as I3.
+  pose proof (run_Inv cf evs (init_pst, init_env) [] Inv_init) as I. cbn [app fst] in *.
+  exact (discharged_settled cf _ _ _ _ G I3 I D).
+Qed.
